@@ -22,7 +22,14 @@ const (
 	outBase = 100  // abstract ids of outsiders: 100, 101, ...
 	altBase = 1000 // abstract id of the alternative (wrong) key of node i: 1000+i
 	nOuts   = 4
+
+	// aliases: the address of member i spelled with other letter case ("No01", "nO01", "NO01"): a different address string
+	// (not a suffrage member), signed with member i's real key.  Abstract node id aliasBase + 10*i + a, a = 1..3.
+	aliasBase = 200
+	nAlias    = 3
 )
+
+func aliasID(member, a int) int { return aliasBase + 10*member + a }
 
 // ---------------------------------------------------------------- shapes (JSON = replay format)
 
@@ -80,6 +87,7 @@ type world struct {
 	nodes  []isaac.LocalNode
 	outs   []isaac.LocalNode
 	alt    map[int]base.Privatekey
+	alias  map[int]isaac.LocalNode
 	suf    isaac.Suffrage
 
 	mu       sync.Mutex
@@ -102,7 +110,7 @@ func mustKey(seed string) base.Privatekey {
 func newWorld(n int) *world {
 	w := &world{
 		n: n, net: base.NetworkID("c03-network"), badnet: base.NetworkID("c03-other-network"),
-		alt: map[int]base.Privatekey{}, factIDs: map[string]uint64{}, expelIDs: map[string]uint64{},
+		alt: map[int]base.Privatekey{}, alias: map[int]isaac.LocalNode{}, factIDs: map[string]uint64{}, expelIDs: map[string]uint64{},
 		nodeIDs: map[string]int{}, keyIDs: map[string]int{},
 		sfCache: map[string]base.BallotSignFact{}, opCache: map[string]isaac.SuffrageExpelOperation{},
 	}
@@ -115,6 +123,16 @@ func newWorld(n int) *world {
 		w.keyIDs[l.Publickey().String()] = i
 		w.alt[i] = mustKey(fmt.Sprintf("c03-n%d-member-%d-alt", n, i))
 		w.keyIDs[w.alt[i].Publickey().String()] = altBase + i
+		for a, pre := range []string{"No", "nO", "NO"} {
+			id := aliasID(i, a+1)
+			al := isaac.NewLocalNode(l.Privatekey(), base.NewStringAddress(fmt.Sprintf("%s%02d", pre, i)))
+			if err := al.Address().IsValid(nil); err != nil {
+				panic(err)
+			}
+			w.alias[id] = al
+			w.nodeIDs[al.Address().String()] = id
+			w.alt[id] = w.alt[i]
+		}
 	}
 	for j := 0; j < nOuts; j++ {
 		id := outBase + j
@@ -134,6 +152,9 @@ func newWorld(n int) *world {
 }
 
 func (w *world) local(id int) isaac.LocalNode {
+	if id >= aliasBase {
+		return w.alias[id]
+	}
 	if id >= outBase {
 		return w.outs[id-outBase]
 	}
